@@ -749,7 +749,7 @@ func widen(x value) value {
 	case complex64:
 		return complex128(y)
 	}
-	panic(fmt.Sprintf("cannot widen %T", x))
+	panic(engineError(fmt.Sprintf("cannot widen %T", x)))
 }
 
 // conv converts the value x of type t_src to type t_dst and returns
